@@ -95,6 +95,8 @@ def units(ctx, prop):
             for spec in [("comp", 2), ("theta", 135)]:
                 for sh1 in (0, 3):
                     us.append(("ell", prop, spec, sc, sh1, ctx.seed, ctx.thorough))
+        for spec in ([("ice", 30, 4), ("c3d", "acute")] if not ctx.thorough else [("ice", 30, 4), ("ice", 60, 4), ("ice", 60, 6), ("c3d", "acute"), ("c3d", "obtuse")]):
+            us.append(("ell3", prop, spec, scs[0], ctx.seed, ctx.thorough))
         us.append(("errors", prop))
         for spec in [("comp", 2), ("theta", 60), ("theta", 135)]:
             for sc in sorted(set([2.0 ** -14, lattice.SCALES[3], scs[0]])):  # tiny scales (covariances 4e-9 / 1.5e-8: below any absolute "unchanged" tolerance) always, plus one more
@@ -247,24 +249,32 @@ def _mk_ell(c, S, a):
     return EllipsoidalConfidenceRegion(len(c), np.array(c, float), np.array(S, float), float(a))
 
 
-def ell_case(prop, spec, sc, sh1, seed, r1, cx, cy, sh2, r2, slabel, res):
+ELL_SHAPES3 = [
+    ((1.0, 0.0, 0.0), (0.0, 1.0, 0.0), (0.0, 0.0, 1.0)),
+    ((1.0, 0.0, 0.0), (0.0, 1.0 / 16, 0.0), (0.0, 0.0, 1.0)),
+    ((1.0, 0.6, 0.0), (0.6, 1.0, -0.5), (0.0, -0.5, 1.0)),
+]
+
+
+def ell_case(prop, spec, sc, sh1, seed, r1, cx, cy, sh2, r2, slabel, res, cz=None):
     from vopy.confidence_region import confidence_region_is_covered, confidence_region_is_dominated
 
     order = cones.make_order(spec)
     W = order.ordering_cone.W
-    off = _offset(seed, 2, sc)
+    shapes = ELL_SHAPES if cz is None else ELL_SHAPES3
+    off = _offset(seed, 2 if cz is None else 3, sc)
     radii = (0.25, 1.0)
     c1 = off.copy()
-    c2 = off + np.array([cx, cy], float) * sc
+    c2 = off + np.array([cx, cy] if cz is None else [cx, cy, cz], float) * sc
     # Sigma carries the physical scale (sc^2); alpha (radius) stays O(1), as in the algorithms
-    S1 = np.array(ELL_SHAPES[sh1], float) * sc * sc
-    S2 = np.array(ELL_SHAPES[sh2], float) * sc * sc
+    S1 = np.array(shapes[sh1], float) * sc * sc
+    S2 = np.array(shapes[sh2], float) * sc * sc
     a1, a2 = radii[r1], radii[r2]
     slack = dict(slack_forms(prop, W, sc, "ell"))[slabel]
     tau = oracles.tau_for(c1, c2, [sc])
     E1, E2 = _mk_ell(c1, S1, a1), _mk_ell(c2, S2, a2)
     case = {"mode": "ell", "prop": prop, "spec": spec, "sc": sc, "sh1": sh1, "seed": seed, "r1": r1, "cx": cx, "cy": cy,
-            "sh2": sh2, "r2": r2, "slack": slabel}
+            "sh2": sh2, "r2": r2, "slack": slabel, "cz": cz}
     res["evaluations"] += 1
     if prop == "C09":
         got = bool(confidence_region_is_dominated(order, E1, E2, slack))
@@ -320,6 +330,31 @@ def run_ell(unit, res):
                                     return
     res["outcomes"].append(f"{prop}:ell:{cones.name(spec)}:{sc}:{sh1}:{res['counters'].get('ell_true', 0)}")
     res["samples"].append({"kind": "ellipsoid", "cone": cones.name(spec), "scale": sc, "shape1": ELL_SHAPES[sh1], "cases": n})
+
+
+def run_ell3(unit, res):
+    """3-D ellipsoids: the only place where a cone has more NON-REDUNDANT facets than objectives (K = 4 > m = 3)"""
+    _, prop, spec, sc, seed, thorough = unit
+    core.import_vopy()
+    cgrid = (-2, -1, 0, 1, 2) if thorough else (-2, 0, 2)
+    nv = n = 0
+    for sh1 in range(len(ELL_SHAPES3)):
+        for sh2 in (range(len(ELL_SHAPES3)) if thorough else [sh1, (sh1 + 1) % 3]):
+            for r1 in (0, 1):
+                for r2 in ((0, 1) if thorough else (r1,)):
+                    for cx in cgrid:
+                        for cy in cgrid:
+                            for cz in cgrid:
+                                for sl in ["zero", "facetvec"]:
+                                    n += 1
+                                    v = ell_case(prop, spec, sc, sh1, seed, r1, cx, cy, sh2, r2, sl, res, cz=cz)
+                                    if v is not None:
+                                        res["violations"].append(v)
+                                        nv += 1
+                                        if nv >= 4:
+                                            return
+    res["outcomes"].append(f"{prop}:ell3:{cones.name(spec)}:{sc}:{res['counters'].get('ell_true', 0)}")
+    res["samples"].append({"kind": "ellipsoid 3-D", "cone": cones.name(spec), "scale": sc, "cases": n})
 
 
 # ---------------------------------------------------------------------------------------------
@@ -501,6 +536,8 @@ def run_unit(unit):
         run_rect(unit, res)
     elif unit[0] == "ell":
         run_ell(unit, res)
+    elif unit[0] == "ell3":
+        run_ell3(unit, res)
     elif unit[0] == "errors":
         run_errors(unit[1], res)
     elif unit[0] == "ellseq":
@@ -523,7 +560,7 @@ def replay_case(case):
                       case["slack"], res, case["n_lat"], case.get("far", 0))
     elif case["mode"] == "ell":
         v = ell_case(case["prop"], _spec(case["spec"]), case["sc"], case["sh1"], case["seed"], case["r1"], case["cx"], case["cy"],
-                     case["sh2"], case["r2"], case["slack"], res)
+                     case["sh2"], case["r2"], case["slack"], res, cz=case.get("cz"))
     elif case["mode"] == "pess":
         v = pess_case(_spec(case["spec"]), case["m"], case["sc"], case["st"], case["seed"], case["i1"], case["i2"], case["sub"], res, case.get("far", 0))
     elif case["mode"] == "ellseq":
